@@ -71,9 +71,48 @@ def cli_cell(item):
     return rec
 
 
-def client_cell(item):
-    cell, text = item
+SPARSE = ('Reservoir Model, 4\nReservoir Depth, 3\nEnd-Use Option, 1\nPower Plant Type, 1\nPlant Lifetime, 10\n'
+          'Time steps per year, 2\nPrint Output to Console, 0\n')   # everything else is left to the declared defaults
+
+
+def _prelude(texts: list):
+    """A process that has already served other inputs (client calls; failures ignored)."""
+    from geophires_x_client import GeophiresXClient
+    from geophires_x_client.geophires_input_parameters import GeophiresInputParameters
+    for k, t in enumerate(texts):
+        root = Path(tempfile.mkdtemp(prefix='vc20p_', dir='/dev/shm' if os.path.isdir('/dev/shm') else None))
+        cwd0, argv0 = os.getcwd(), list(sys.argv)
+        try:
+            (root / 'p.txt').write_text(t)
+            os.chdir(root)
+            with contextlib.redirect_stdout(io.StringIO()), contextlib.redirect_stderr(io.StringIO()):
+                GeophiresXClient(enable_caching=False).get_geophires_result(GeophiresInputParameters(from_file_path=root / 'p.txt'))
+        except BaseException:  # noqa: BLE001
+            pass
+        finally:
+            os.chdir(cwd0)
+            sys.argv = argv0
+            shutil.rmtree(root, ignore_errors=True)
+
+
+def direct_warm_cell(item):
+    """The direct pipeline in a process that has already run the prelude inputs through the same pipeline."""
+    cell, text, prelude = item
     bind_repo()
+    from .c12 import project
+    for t in prelude:
+        sim.run_input(t, None)
+    o = sim.run_input(text, project)
+    return dict(cell, created=[], signal='ok' if o['status'] == 'ok' else 'raised', prelude=prelude,
+                digest=digest_report(o.get('report')) if o['status'] == 'ok' else 'none', json=json_digest(o.get('json_text')))
+
+
+def client_cell(item):
+    cell, text = item[0], item[1]
+    bind_repo()
+    if len(item) > 2:
+        logging.disable(logging.CRITICAL)
+        _prelude(item[2])
     from geophires_x_client import GeophiresXClient
     from geophires_x_client.geophires_input_parameters import GeophiresInputParameters
 
@@ -83,7 +122,7 @@ def client_cell(item):
     cwd0, argv0 = os.getcwd(), list(sys.argv)
     logging.disable(logging.CRITICAL)
     sink = io.StringIO()
-    rec = dict(cell, created=[], json='n/a')
+    rec = dict(cell, created=[], json='n/a', prelude=list(item[2]) if len(item) > 2 else [])
     try:
         os.chdir(root)
         params = GeophiresInputParameters(from_file_path=inp)
@@ -139,6 +178,52 @@ def mc_cell(item):
     return rec
 
 
+def judge(res: Result, direct: dict, recs: list, mc_recs: list, texts: dict, failing: set):
+    """Reference digests from the direct pipeline, one TraceEntry trace per executed cell, verdicts -> violations."""
+    refs = {}
+    for ident, o in direct.items():
+        if o['status'] == 'machinery':
+            raise MachineryFailure(o['error'])
+        refs[ident] = (digest_report(o.get('report')) if o['status'] == 'ok' else 'none', json_digest(o.get('json_text')), o)
+    traces = []
+    for ident, (dg, jd, o) in refs.items():  # the direct pipeline is itself a cell
+        recs.append({'entry': 'direct', 'arg': 'none', 'dir': 'd1', 'input': ident, 'hist': 'cold', 'failing': ident in failing, 'expect_files': [],
+                     'signal': 'ok' if o['status'] == 'ok' else 'raised', 'created': [], 'digest': dg, 'json': jd})
+    for rec in mc_recs:
+        # the embedded run is compared through the tokens the driver extracts (it keeps no report): same tokens as in the
+        # direct pipeline's report for base + the degenerate sample
+        ident = rec['input']
+        want = mc_tokens(refs[ident][2].get('report') or '') if not rec['failing'] else []
+        want = [t for t in want if t is not None]
+        rec['digest'] = 'tokens:' + ','.join(rec['mc_row'])
+        rec['ref_override'] = 'tokens:' + ','.join(want)
+        recs.append(rec)
+    for k, rec in enumerate(recs):
+        ident = rec['input']
+        t = {'tid': k + 1, 'entry': rec['entry'], 'arg': rec['arg'], 'dir': rec['dir'], 'input': ident, 'hist': rec.get('hist', 'cold'), 'failing': bool(rec['failing']),
+             'signal': rec['signal'], 'created': rec['created'], 'expect_files': rec['expect_files'], 'digest': rec['digest'],
+             'json': rec['json'], 'ref': rec.get('ref_override', refs[ident][0]), 'refjson': refs[ident][1]}
+        traces.append(t)
+    verdicts, ds, gs = tlc.validate_traces('TraceEntry', 'TraceEntry.cfg', traces)
+    res.states += ds
+    res.transitions += gs
+    res.traces += len(traces)
+    counts = {}
+    for t, rec in zip(traces, recs):
+        vd = verdicts[t['tid']]
+        res.case(f"{t['entry']}/{t['arg']}/{t['dir']}/{t['hist']}/{t['input']}")
+        counts['hist:' + t['hist']] = counts.get('hist:' + t['hist'], 0) + 1
+        counts['entry:' + t['entry']] = counts.get('entry:' + t['entry'], 0) + 1
+        for c in vd['e']:
+            counts[c] = counts.get(c, 0) + 1
+        for c in vd['f']:
+            wit = [w for w in vd['w'] if w.get('clause') == c][:1]
+            res.violation({'clause': c, 'entry': t['entry'], 'arg': t['arg'], 'hist': t['hist'], 'input': t['input']},
+                          f"{c} fails for {t['entry']}/{t['arg']}/{t['dir']}/{t['hist']} on {t['input']}: {json.dumps(wit)[:300]} {rec.get('stderr', '')[-120:]}",
+                          {'cell': t, 'input_text': texts[t['input']], 'prelude': rec.get('prelude', [])})
+    return counts, traces, verdicts
+
+
 def run(tier: str) -> int:
     res = Result('C20', tier)
     r = tlc.run_tlc('Entry', 'MC_Entry.cfg', workers=1, coverage=True, timeout=300)
@@ -151,7 +236,7 @@ def run(tier: str) -> int:
         raise MachineryFailure('Entry.tla dumped too few cells')
     rng = random.Random(seed() * 20 + 20)
     ninputs = 2 if tier == 'quick' else 10
-    items_cli, items_client, items_mc, direct_jobs = [], [], [], []
+    items_cli, items_client, items_mc, items_warm, direct_jobs = [], [], [], [], []
     texts = {}
     ex = sim.example_inputs()
     pools = [(1, 1, 4), (2, 9, 4), (31, 2, 3), (2, 6, 4), (42, 4, 4), (2, 5, 4), (1, 3, 3), (52, 1, 4), (2, 7, 4), (1, 2, 4)]
@@ -166,6 +251,14 @@ def run(tier: str) -> int:
         texts[f'failcalc{k}'] = base + FAIL_CALC
     for name in (['example1'] if tier == 'quick' else ['example1', 'example2', 'example3', 'example10_HP', 'example_ITC', 'example13']):
         texts[f'ex:{name}'] = ex[name]
+    # inputs that lean on the declared defaults, and the heterogeneous inputs a warmed-up process has served before them
+    texts['sparse0'] = SPARSE
+    texts['sparse1'] = SPARSE.replace('End-Use Option, 1', 'End-Use Option, 2').replace('Power Plant Type, 1', 'Power Plant Type, 9') + 'Reservoir Volume Option, 3\n'
+    pr = gen.base(rng, 1, 31, 2, 3, lifetime=7, steps=3)
+    gen.add_prices(pr, rng); gen.add_segments(pr, rng, 4); gen.add_cost_flags(pr, rng); gen.add_carbon(pr, rng); gen.add_incentives(pr, rng)
+    pr.update({'Surface Temperature': 4.0, 'Ambient Temperature': 3.0, 'Utilization Factor': 0.71, 'Water Loss Fraction': 0.09,
+               'Number of Production Wells': 4, 'Number of Injection Wells': 3, 'Maximum Temperature': 310})
+    rich = [gen.to_text(pr), ex['example_multiple_gradients'], ex['example3'], texts['failread0']]
     idents = list(texts)
     failing = {i for i in idents if i.startswith('fail')}
     for ident in idents:
@@ -181,61 +274,27 @@ def run(tier: str) -> int:
                 continue
             if c['input'] == 'fail_calc' and not ident.startswith('failcalc'):
                 continue
-            cell = {'entry': c['entry'], 'arg': c['arg'], 'dir': c['dir'], 'input': ident, 'failing': ident in failing,
+            if c['hist'] == 'warm' and (not ident.startswith('sparse') or c['dir'] != 'd1'):
+                continue        # a warmed-up process matters for inputs that lean on defaults; the others name their values
+            cell = {'entry': c['entry'], 'arg': c['arg'], 'dir': c['dir'], 'input': ident, 'hist': c['hist'], 'failing': ident in failing,
                     'expect_files': c['expect_files']}
             if c['entry'] == 'cli':
                 items_cli.append((cell, texts[ident]))
             elif c['entry'] == 'client' and c['dir'] == 'd1':
-                items_client.append((cell, texts[ident]))
+                items_client.append((cell, texts[ident]) if c['hist'] == 'cold' else (cell, texts[ident], rich))
+            elif c['entry'] == 'direct' and c['hist'] == 'warm':
+                items_warm.append((cell, texts[ident], rich))
             elif c['entry'] == 'mc' and c['dir'] == 'd1' and c['input'] in ('ok1', 'fail_read') and (tier == 'thorough' or ident in ('ok0', 'failread0', 'ex:example1')):
                 items_mc.append((cell, texts[ident], 47.5 if not ident.startswith('ex:') else 55.0))
     direct = {o['tag']: o for o in sim.run_many(direct_jobs, 'harness.c12:project', keep_report=True)}
-    refs = {}
-    for ident, o in direct.items():
-        if o['status'] == 'machinery':
-            raise MachineryFailure(o['error'])
-        refs[ident] = (digest_report(o.get('report')) if o['status'] == 'ok' else 'none', json_digest(o.get('json_text')), o)
-    recs = sim.call_in_pool('harness.c20:cli_cell', items_cli) + sim.call_in_pool('harness.c20:client_cell', items_client)
+    recs = (sim.call_in_pool('harness.c20:cli_cell', items_cli) + sim.call_in_pool('harness.c20:client_cell', items_client)
+            + sim.call_in_pool('harness.c20:direct_warm_cell', items_warm))
     mc_recs = sim.call_in_pool('harness.c20:mc_cell', items_mc, procs=3)
-    traces = []
-    for ident, (dg, jd, o) in refs.items():  # the direct pipeline is itself a cell
-        recs.append({'entry': 'direct', 'arg': 'none', 'dir': 'd1', 'input': ident, 'failing': ident in failing, 'expect_files': [],
-                     'signal': 'ok' if o['status'] == 'ok' else 'raised', 'created': [], 'digest': dg, 'json': jd})
-    for rec in mc_recs:
-        # the embedded run is compared through the tokens the driver extracts (it keeps no report): same tokens as in the
-        # direct pipeline's report for base + the degenerate sample
-        ident = rec['input']
-        want = mc_tokens(refs[ident][2].get('report') or '') if not rec['failing'] else []
-        want = [t for t in want if t is not None]
-        rec['digest'] = 'tokens:' + ','.join(rec['mc_row'])
-        rec['ref_override'] = 'tokens:' + ','.join(want)
-        recs.append(rec)
-    for k, rec in enumerate(recs):
-        ident = rec['input']
-        t = {'tid': k + 1, 'entry': rec['entry'], 'arg': rec['arg'], 'dir': rec['dir'], 'input': ident, 'failing': bool(rec['failing']),
-             'signal': rec['signal'], 'created': rec['created'], 'expect_files': rec['expect_files'], 'digest': rec['digest'],
-             'json': rec['json'], 'ref': rec.get('ref_override', refs[ident][0]), 'refjson': refs[ident][1]}
-        traces.append(t)
-    verdicts, ds, gs = tlc.validate_traces('TraceEntry', 'TraceEntry.cfg', traces)
-    res.states += ds
-    res.transitions += gs
-    res.traces += len(traces)
-    counts = {}
-    for t, rec in zip(traces, recs):
-        vd = verdicts[t['tid']]
-        res.case(f"{t['entry']}/{t['arg']}/{t['dir']}/{t['input']}")
-        counts['entry:' + t['entry']] = counts.get('entry:' + t['entry'], 0) + 1
-        for c in vd['e']:
-            counts[c] = counts.get(c, 0) + 1
-        for c in vd['f']:
-            wit = [w for w in vd['w'] if w.get('clause') == c][:1]
-            res.violation({'clause': c, 'entry': t['entry'], 'arg': t['arg'], 'input': t['input']},
-                          f"{c} fails for {t['entry']}/{t['arg']}/{t['dir']} on {t['input']}: {json.dumps(wit)[:300]} {rec.get('stderr', '')[-120:]}",
-                          {'cell': t, 'input_text': texts[t['input']]})
+    counts, traces, verdicts = judge(res, direct, recs, mc_recs, texts, failing)
     res.cov['cells_and_clauses'] = counts
     res.sample({'cell': traces[0], 'verdict': verdicts[1]})
     res.sample({'cell': traces[len(traces) // 2]})
-    for need in ('C20_same', 'C20_json_same', 'C20_where', 'C20_fail', 'entry:cli', 'entry:client', 'entry:mc', 'entry:direct'):
+    for need in ('C20_same', 'C20_json_same', 'C20_where', 'C20_fail', 'entry:cli', 'entry:client', 'entry:mc', 'entry:direct', 'hist:warm'):
         if not counts.get(need):
             raise MachineryFailure(f'C20: {need} never exercised')
     res.exhaustive = False
@@ -247,5 +306,22 @@ def run(tier: str) -> int:
 
 
 def replay(path: str) -> int:
-    print(open(path).read()[:3000])
-    return 0
+    """Execute the recorded cell (entry point x output argument x start directory x input) again and judge it."""
+    rp = json.loads(open(path).read())['replay']
+    res = Result('C20', 'quick')
+    t, text = rp['cell'], rp['input_text']
+    ident = t['input']
+    cell = {'entry': t['entry'], 'arg': t['arg'], 'dir': t['dir'], 'input': ident, 'hist': t.get('hist', 'cold'), 'failing': t['failing'],
+            'expect_files': t['expect_files']}
+    direct = {o['tag']: o for o in sim.run_many([(ident, text)], 'harness.c12:project', keep_report=True)}
+    recs, mc_recs = [], []
+    if t['entry'] == 'cli':
+        recs = [cli_cell((cell, text))]
+    elif t['entry'] == 'client':
+        recs = sim.call_in_pool('harness.c20:client_cell', [(cell, text, rp['prelude']) if rp.get('prelude') else (cell, text)], procs=1)
+    elif t['entry'] == 'direct' and t.get('hist') == 'warm':
+        recs = sim.call_in_pool('harness.c20:direct_warm_cell', [(cell, text, rp.get('prelude', []))], procs=1)
+    elif t['entry'] == 'mc':
+        mc_recs = [mc_cell((cell, text, 47.5 if not ident.startswith('ex:') else 55.0))]
+    judge(res, direct, recs, mc_recs, {ident: text}, {ident} if t['failing'] else set())
+    return res.finish()
